@@ -305,9 +305,14 @@ def _defrag_swap(ex, st, k):
         is_idx = e.args[0].t == z3.Concat(st.env['tmp_bundle'].t, z3.StringVal('.bundlx'))
         goal = z3.And(goal, z3.Implies(z3.And(is_idx, ex.truth(st, e.result)), z3.BoolVal(len(rn) >= 2)))
     goal = z3.And(goal, z3.BoolVal(len(rn) <= 2))
+    mk_pos = [i_ for i_, e in enumerate(evs_) if e.name == 'bundle_class']
     for j, r in rm:
-        # only the old bundle and its index file are ever removed
-        goal = z3.And(goal, z3.Or(eq(r.args[0], bf), eq(r.args[0], sibling)))
+        # only the old bundle and its index file are ever removed - and, before the scratch bundle object is created, leftovers
+        # of an interrupted run under the scratch name
+        scratch = z3.BoolVal(False)
+        if 'tmp_bundle' in st.env and isinstance(r.args[0], VStr) and len(mk_pos) >= 2 and j < mk_pos[1]:
+            scratch = z3.Or([r.args[0].t == z3.Concat(st.env['tmp_bundle'].t, z3.StringVal(x)) for x in ('.bundle', '.bundlx', '.lck')])
+        goal = z3.And(goal, z3.Or(eq(r.args[0], bf), eq(r.args[0], sibling), scratch))
     # the bundle that is read is THIS file; the new one is written next to the cache with the same offset
     bo = [e for e in evs_ if e.name == 'bundle_offset']
     rs = [e for e in evs_ if e.name == 'rstrip']
@@ -330,6 +335,22 @@ def _defrag_swap(ex, st, k):
         cd = ex.opaque_field(st, st.env['cache'], 'cache_dir')
         want = os_path_join(ex, st, [cd, VStr('tmp_defrag')], {}, None)[0][1]
         g_b = z3.And(g_b, st.env['tmp_bundle'].t == want.t)
+    # C19: the copy starts from an EMPTY scratch bundle.  The bundle classes append to an existing file: whatever an interrupted
+    # run left under <cache_dir>/tmp_defrag.* would be merged into the first bundle that is rewritten (S44)
+    if len(mk_pos) >= 2 and 'tmp_bundle' in st.env:
+        g_s = z3.BoolVal(True)
+        for x in ('.bundle', '.bundlx', '.lck'):
+            name = z3.Concat(st.env['tmp_bundle'].t, z3.StringVal(x))
+            asked = [(i_, e) for i_, e in enumerate(evs_) if e.name == 'exists' and i_ < mk_pos[1] and isinstance(e.args[0], VStr)
+                     and z3.is_true(z3.simplify(e.args[0].t == name))]
+            gone = [(j, r) for j, r in rm if j < mk_pos[1] and isinstance(r.args[0], VStr) and z3.is_true(z3.simplify(r.args[0].t == name))]
+            okx = len(asked) == 1 and len(gone) <= 1 and all(j > asked[0][0] for j, r in gone)
+            g_s = z3.And(g_s, z3.BoolVal(bool(okx)))
+            if okx:
+                g_s = z3.And(g_s, ex.truth(st, asked[0][1].result) == z3.BoolVal(len(gone) == 1))
+        yield ('scratch_bundle_is_empty_when_the_copy_starts', g_s,
+               'before the scratch bundle object is created each of tmp_defrag.bundle / .bundlx / .lck is removed exactly if it '
+               'exists: leftovers of an interrupted run are never merged into the bundle that is rewritten')
     yield ('old_and_new_bundle_identified', g_b,
            'the tiles are read from the bundle of THIS file (its base name, its offset) and written to a bundle object created '
            'for the temporary name with the same offset')
@@ -362,8 +383,10 @@ contract('mapproxy.script.defrag:defrag_compact_cache', props=['C19'],
                       'load_tiles': {}, 'store_tiles': {}, 'exists': {'returns': 'bool', 'pure': True}, 'rstrip': {'pure': True}},
          raises={'ZeroDivisionError': True},
          loops={0: dict(inv=[], types={'stored_tiles': 'bool'}, body_trace=[_defrag_swap]),
+                # (the loop over the three scratch names is a loop over a literal tuple: executed as written, no invariant needed)
+                # the row loop is addressed by its variable, not by its position: the scratch-name loop in front of it came with S44
                 # (nothing counts as copied before the first row was looked at)
-                1: dict(inv=['len(_seq) == 128', 'implies(_k == 0, not stored_tiles)'],
+                'var:y': dict(inv=['len(_seq) == 128', 'implies(_k == 0, not stored_tiles)'],
                         types={'stored_tiles': 'bool', 'tiles': 'opaque'}, body_trace=[_defrag_row])},
          trace=[_defrag_scans_the_cache])
 
